@@ -91,7 +91,21 @@ def run(ck, prog):
                      found=f"tie-breaking differs: {classes} (first = lowest column index among equal maxima)")
     else:
         ck.ok(rule2, inst, "BaseMatrix::argmax", "", f"{classes}")
-    ck.floor(rule2, 1)
+    # ---- (2c) dot does not depend on the orientation of its vector operands
+    inst0 = "BaseMatrix::dot is an element-wise inner product (orientation-free)"
+    for backend in ("dense", "ndarray", "nalgebra"):
+        b = impl_body(prog, "BaseMatrix", backend, "dot")
+        inst = f"{backend} {inst0}"
+        if not b:
+            ck.violation(rule2, inst, f"{backend}:BaseMatrix::dot", "", expected="impl exists", found="anchor vanished")
+            continue
+        cls, how = sb.dot_orientation(prog, b)
+        if cls == "elementwise":
+            ck.ok(rule2, inst, b.path, f"{b.loc[0]}:{b.loc[1]}", how)
+        else:
+            ck.violation(rule2, inst, b.path, f"{b.loc[0]}:{b.loc[1]}", expected="sum over all corresponding elements, as in the built-in backend (row or column vectors alike)",
+                         found=f"{cls}: `{how}` - for column vectors the picked entry is a_0*b_0, not the inner product")
+    ck.floor(rule2, 4)
     # ---- (3) layout
     rule = "E6-layout"
     EXEMPT = {"unique": "result is sorted afterwards (order-insensitive)", "from_row_vector": "the source is one-dimensional"}
